@@ -320,6 +320,7 @@ func (c *Cache) Get(key any) any              { return nil }
 
 func main() {
 	out := flag.String("out", "gen/parv", "output directory (inside the harness module)")
+	wantPlain := flag.Bool("plain", false, "also make the plain accesses to cacheEntry fields scheduling points")
 	flag.Parse()
 	repo := os.Getenv("VERIF_REPO")
 	if repo == "" {
@@ -328,6 +329,9 @@ func main() {
 	src := filepath.Join(repo, "par", "work.go")
 	var lastErr string
 	for _, plain := range []bool{true, false} {
+		if plain && !*wantPlain {
+			continue
+		}
 		code, err := rewrite(src, plain)
 		if err != nil {
 			lastErr = err.Error()
